@@ -129,6 +129,21 @@ func (c *Ctx) intrinsic(fn *ssa.Function, name string, args []Value) (Value, boo
 			c.unsupported("verifFloatToBig in int mode")
 		}
 		return c.newBig(FPToBV(f, c.BigW, true)), true
+	case "verifParseDigits":
+		// verifParseDigits(s string, base int) (*big.Int, bool): value of a non-empty run of digits valid in base
+		str := args[0].(*StrVal)
+		base, _ := c.constInt(args[1].(*Term), true)
+		v, valid := c.parseDigitsSym(str.B, int(base))
+		return TupleVal{c.newBig(v), valid}, true
+	case "verifString":
+		// verifString(name string, n int) string: n symbolic bytes
+		nm := c.strArg(args[0])
+		n, _ := c.constInt(args[1].(*Term), true)
+		bs := make([]*Term, n)
+		for i := range bs {
+			bs[i] = c.newInput(fmt.Sprintf("%s_%d", nm, i), c.intSort(8), 8, false)
+		}
+		return &StrVal{B: bs}, true
 	case "verifBound":
 		// verifBound(quick, thorough int) int
 		return args[c.Ex.Tier], true
@@ -719,45 +734,88 @@ func (c *Ctx) modelGuard(ok *Term, what string) {
 	}
 }
 
-// bigSetStringSym: digits symbolic; base in {2,8,10,16} (0 with prefix handled by callers normally).
-func (c *Ctx) bigSetStringSym(z Value, s *StrVal, base int) Value {
-	if base != 2 && base != 8 && base != 10 && base != 16 {
-		c.unsupported("big.Int.SetString symbolic digits with base %d", base)
-	}
-	b := s.B
-	if len(b) == 0 {
-		return TupleVal{Ptr{}, False}
-	}
-	neg := False
-	// optional sign
-	isMinus := c.byteIn(b[0], '-', '-')
-	isPlus := c.byteIn(b[0], '+', '+')
-	if c.decide(isMinus) {
-		neg = True
-		b = b[1:]
-	} else if c.decide(isPlus) {
-		b = b[1:]
-	}
-	if len(b) == 0 {
-		return TupleVal{Ptr{}, False}
-	}
+// parseDigitsSym: value and validity of a digit string as formulas (no forking).
+func (c *Ctx) parseDigitsSym(b []*Term, base int) (*Term, *Term) {
 	acc := c.bigConst(big.NewInt(0))
 	bb := c.bigConst(big.NewInt(int64(base)))
+	valid := BoolConst(len(b) > 0)
 	for _, ch := range b {
-		// underscore handling (base 0 only) not modelled: base != 0 here
 		d, ok := c.digitVal(ch, base)
-		if !c.decide(ok) {
-			return TupleVal{Ptr{}, False}
-		}
+		valid = And(valid, ok)
 		if c.IntMode {
 			acc = IAdd(IMul(acc, bb), d)
 		} else {
 			acc = BVAdd(BVMul(acc, bb), d)
 		}
 	}
-	res := Ite(neg, c.bigNeg(acc), acc)
-	c.bigSet(z, res)
+	return acc, valid
+}
+
+// bigSetStringSym: digits symbolic; one fork for the sign, one for validity.
+func (c *Ctx) bigSetStringSym(z Value, s *StrVal, base int) Value {
+	if base < 2 || base > 36 {
+		c.unsupported("big.Int.SetString symbolic digits with base %d", base)
+	}
+	b := s.B
+	if len(b) == 0 {
+		return TupleVal{Ptr{}, False}
+	}
+	neg := false
+	if c.decide(c.byteIn(b[0], '-', '-')) {
+		neg = true
+		b = b[1:]
+	} else if c.decide(c.byteIn(b[0], '+', '+')) {
+		b = b[1:]
+	}
+	v, valid := c.parseDigitsSym(b, base)
+	if !c.decide(valid) {
+		return TupleVal{Ptr{}, False}
+	}
+	if neg {
+		v = c.bigNeg(v)
+	}
+	c.bigSet(z, v)
 	return TupleVal{z, True}
+}
+
+// parseIntModel models strconv.ParseInt(s, base, 64) for base != 0 on symbolic digits.
+func (c *Ctx) parseIntModel(s *StrVal, base int) Value {
+	fail := func(msg string) Value {
+		return TupleVal{c.goInt(0), c.mkError(c.str("strconv.ParseInt: " + msg))}
+	}
+	b := s.B
+	if len(b) == 0 {
+		return fail("invalid syntax")
+	}
+	neg := false
+	if c.decide(c.byteIn(b[0], '-', '-')) {
+		neg = true
+		b = b[1:]
+	} else if c.decide(c.byteIn(b[0], '+', '+')) {
+		b = b[1:]
+	}
+	v, valid := c.parseDigitsSym(b, base)
+	if !c.decide(valid) {
+		return fail("invalid syntax")
+	}
+	if neg {
+		v = c.bigNeg(v)
+	}
+	var fits *Term
+	lo := c.bigConst(new(big.Int).Neg(pow2(63)))
+	hi := c.bigConst(new(big.Int).Sub(pow2(63), big.NewInt(1)))
+	if c.IntMode {
+		fits = And(ILe(lo, v), ILe(v, hi))
+	} else {
+		fits = And(BVSle(lo, v), BVSle(v, hi))
+	}
+	if !c.decide(fits) {
+		return fail("value out of range")
+	}
+	if c.IntMode {
+		return TupleVal{v, Iface{}}
+	}
+	return TupleVal{Extract(63, 0, v), Iface{}}
 }
 
 // digitVal gives the numeric value of an ASCII digit byte as a big-sorted term and its validity.
@@ -1014,6 +1072,22 @@ func registerLibModels() {
 	m["unicode/utf8.DecodeRune"] = func(c *Ctx, fn *ssa.Function, a []Value) Value {
 		r, n := c.decodeRune(c.sliceBytes(a[0].(SliceVal)))
 		return TupleVal{r, c.goInt(int64(n))}
+	}
+	m["strconv.ParseInt"] = func(c *Ctx, fn *ssa.Function, a []Value) Value {
+		s := a[0].(*StrVal)
+		base, okb := c.constInt(a[1].(*Term), true)
+		bits, okc := c.constInt(a[2].(*Term), true)
+		if cs, ok := s.concrete(); ok && okb && okc {
+			v, err := strconv.ParseInt(cs, int(base), int(bits))
+			if err != nil {
+				return TupleVal{c.goInt(v), c.mkError(c.str(err.Error()))}
+			}
+			return TupleVal{c.goInt(v), Iface{}}
+		}
+		if !okb || !okc || base < 2 || base > 36 || bits != 64 {
+			c.unsupported("strconv.ParseInt with symbolic digits needs constant base in 2..36 and bitSize 64")
+		}
+		return c.parseIntModel(s, int(base))
 	}
 	m["strconv.IsPrint"] = func(c *Ctx, fn *ssa.Function, a []Value) Value {
 		r := a[0].(*Term)
